@@ -78,6 +78,7 @@ func replayDet(line []byte, a *Acc) {
 		// rebuild nested maps with the same capacity trick (iteration order of nested maps too)
 		m := mxj.Map{"r": inner}
 		before := tagged.CanonGo(m)
+		var hl held
 		for rep := 0; rep < 2; rep++ {
 			cases++
 			check := func(name string, got []byte, err error, want string) bool {
@@ -108,6 +109,7 @@ func replayDet(line []byte, a *Acc) {
 			if !check("Xml", b, err, l.X) {
 				return
 			}
+			hl.add("Map.Xml()", b)
 			var w bytes.Buffer
 			err = m.XmlWriter(&w)
 			if !check("XmlWriter", w.Bytes(), err, l.X) {
@@ -131,6 +133,8 @@ func replayDet(line []byte, a *Acc) {
 			if !check("AnyXml", ax, err, l.X) {
 				return
 			}
+			hl.add("AnyXml()", ax)
+			hl.add("Map.XmlIndent()", bi)
 			// JSON
 			j, err := m.Json()
 			if !check("Json", j, err, l.J) {
@@ -140,6 +144,8 @@ func replayDet(line []byte, a *Acc) {
 			if !check("Json(safe)", js, err, l.Js) {
 				return
 			}
+			hl.add("Map.Json()", j)
+			hl.add("Map.Json(true)", js)
 			w.Reset()
 			err = m.JsonWriter(&w)
 			if !check("JsonWriter", w.Bytes(), err, l.J) {
@@ -166,6 +172,8 @@ func replayDet(line []byte, a *Acc) {
 			if !check("JsonIndentWriterRaw", raw, err, string(ji)) {
 				return
 			}
+			hl.add("Map.JsonIndent()", ji)
+			hl.add("Map.JsonIndentWriterRaw()", raw)
 			// Maps forms: concatenation of the per-Map encodings
 			ms := mxj.Maps{m, m}
 			s, err := ms.XmlString()
@@ -270,6 +278,25 @@ func replayDet(line []byte, a *Acc) {
 		}
 		if tagged.CanonGo(m) != before {
 			one("det:receiver-modified", "encoding modified the Map")
+		}
+		// a result is a function of its Map: encoding ANOTHER Map afterwards does not change bytes handed out before
+		other := mxj.Map{"other": map[string]interface{}{"-q": "different", "zz": []interface{}{before, 2.5, true}}}
+		other.Json()
+		other.Json(true)
+		other.JsonIndent("", " ")
+		other.Xml()
+		other.XmlIndent("", "  ")
+		mxj.AnyXml(map[string]interface{}(other), "o")
+		var ow bytes.Buffer
+		other.JsonWriterRaw(&ow)
+		other.JsonIndentWriterRaw(&ow, "", " ")
+		changed := false
+		hl.check(func(name, was, now string) {
+			changed = true
+			one("det:result-changed-later", fmt.Sprintf("the bytes returned by %s were %q and read %q after another Map was encoded", name, was, now))
+		})
+		if changed {
+			return
 		}
 	}
 	a.Count(cases, cases)
